@@ -150,6 +150,16 @@ claim("C33", "S2",
       "asyncio FIFO callback order and Future.result() blocking are trusted.",
       "ast guard dominance + return-value analysis + who-may-call on loop entry points")
 
+claim("C43", "S2",
+      "Downstream lock coverage for the eight listed combinators: every slot of every source subscription and every timer "
+      "action is followed (helpers, lambdas, bound methods, synchronized wrappers) to its calls on the downstream observer; "
+      "each is made under the combinator's single lock or behind a once-assigned winner flag (amb); all slots use the same "
+      "lock; flat_map*/merge delegate to merge_all. Mutual exclusion of downstream calls is the discipline that yields "
+      "'never two threads at once' for every interleaving.",
+      "Each source emits serially from its own thread (as the property states); RLock trusted; the grammar under "
+      "serialized calls is C01/C11-C13's subject.",
+      "ast lock-coverage analysis over subscribe slots with interprocedural helper following")
+
 na("C15", "arithmetic over run-time timestamps (queue ordering by timestamp + duetime, 'exactly d later'); no structural "
           "clause that is both necessary and robust beyond ownership/guarding/falsy rules already decided under "
           "C02/C03/C08/C09, whose scope includes these files")
